@@ -252,6 +252,18 @@ def kf_moved_then_redefined(w: Dict[str, Any]) -> bool:
     return False
 
 
+def kf_multi_reexported(w: Dict[str, Any]) -> bool:
+    """Known finding (same root cause as C06 base-reexported-by-several-modules): an object listed in __all__ by TWO importing modules
+       is moved twice; the alias left in the defining module points at the intermediate location, so a name imported from the
+       defining module does not resolve any more (it never resolves to a wrong object)."""
+    if not str(w.get("invariant", "")).startswith("AlwaysResolves") or not w.get("expected_site"):
+        return False
+    proj = {**w.get("origin", {}).get("project", {}), "family": "", "meta": {}}
+    if not proj.get("mods"):
+        return False
+    return list(w["expected_site"]) in [list(x["site"]) for x in P.expected_reexports(proj, multi=True)]
+
+
 def check_pybind_vs_cpython(ctx: Ctx, proj: Dict[str, Any], rows: List[Dict[str, Any]], pid: int, invalid: List[int] = ()) -> int:
     """PyBind.tla against CPython importing the generated files, for every entry order of the project (one for acyclic projects).
        For cyclic projects the orders in which the interpreter raises must be exactly those PyBind marks invalid."""
@@ -308,6 +320,7 @@ def run(ctx: Ctx) -> int:
     rng = random.Random(ctx.seed)
     ctx.register_matcher("definition-then-import-of-same-name", kf_definition_then_import)
     ctx.register_matcher("reexported-then-redefined-in-reexporter", kf_moved_then_redefined)
+    ctx.register_matcher("object-reexported-by-several-modules-unresolved", kf_multi_reexported)
     projs = c04_projects(ctx.quick, rng)
     counters: Dict[str, int] = collections.Counter()
     validated_names = 0
